@@ -19,7 +19,7 @@ embedding; the model's `del` list is its flattening (`encDel`).
 
 ## The assumed interface (the parameters of the interpreter)
 attributes of `self`:
-* `_obsolete`, `_deletedCache`, `_connection` (None exactly when no low-level connection is held),
+* `_obsolete`, `_deletedCache`, `_updatedCache`, `_connection` (None exactly when no low-level connection is held),
   `_dbConnection.debug`, `_dbConnection.autoCommit` (truthiness), `_dbConnection`, `_dbConnection.cache`, `cache`;
 * `inst.id`, `inst.__class__.__name__` of a transaction-side instance: id and class of its key;
 * `PY2` is False.
@@ -45,6 +45,9 @@ calls:
 * `meth(inst)` with `meth = types.MethodType(self._dbConnection._SO_delete.__func__, self)` : `DBAPI._SO_delete`
   with the transaction as `self`, i.e. `self.query("DELETE …")`: AssertionError (`assertActive`) when obsolete, else
   the first write takes the lock and the row, if visible, is deleted in the write set;
+* `meth(so, values)` with `meth = types.MethodType(self._dbConnection._SO_update.__func__, self)` : `DBAPI._SO_update` with
+  the transaction as `self`, i.e. `self.query("UPDATE …")`: AssertionError when obsolete, else the first write takes the
+  lock and the row, if visible, gets the new column value in the write set (`values` = `encValues col v`);
 * `self._makeObsolete()`, `self.rollback()` : the translated programs themselves.
 -/
 namespace SqlObjVerif.Tx
@@ -92,6 +95,8 @@ structure XT where
   obsolete : Bool
   /-- `self._deletedCache` -/
   delv : PVal
+  /-- `self._updatedCache` -/
+  updv : PVal
   dom : List Key
   p : Conn
   t : Conn
@@ -100,7 +105,7 @@ structure XT where
   hasConn : Bool
 
 def img (s : St) (lo : Low) : XT :=
-  { dc := s.dc, db := s.db, ws := s.ws, lock := s.lock, obsolete := s.obsolete, delv := encDel s.del, dom := s.dom,
+  { dc := s.dc, db := s.db, ws := s.ws, lock := s.lock, obsolete := s.obsolete, delv := encDel s.del, updv := encDel s.upd, dom := s.dom,
     p := s.p, t := s.t, lo := lo, hasConn := !s.obsolete }
 
 /-- the per-class caches of the transaction's CacheSet and what their `allIDs()` return -/
@@ -128,6 +133,7 @@ def XT.viewT (x : XT) (k : Key) : Option Row :=
 def txGetAttr (x : XT) (path : List String) : R PVal :=
   if path = ["_obsolete"] then .ok (.bool x.obsolete)
   else if path = ["_deletedCache"] then .ok x.delv
+  else if path = ["_updatedCache"] then .ok x.updv
   else if path = ["_connection"] then .ok (if x.hasConn then .ref 1 0 else .none)
   else if path = ["_dbConnection"] then .ok (.ref 0 0)
   else if path = ["_dbConnection", "debug"] then .ok (.bool x.lo.debug)
@@ -142,6 +148,7 @@ def txSetAttr (x : XT) (path : List String) (v : PVal) : Option XT :=
     | .bool b => some { x with obsolete := b }
     | _ => none
   else if path = ["_deletedCache"] then some { x with delv := v }
+  else if path = ["_updatedCache"] then some { x with updv := v }
   else if path = ["_connection"] then
     match v with
     | .none => some { x with hasConn := false }
@@ -203,7 +210,14 @@ def txCall0 (x : XT) (recv : PVal) (m : String) (args : List PVal) (kw : List (S
     else .stuck
   | _ => .stuck
 
-/-- `DBAPI._SO_delete` with the transaction as `self` -/
+/-- the `values` argument of `_SO_update` for an assignment of `v` to column `c` (what the UPDATE will write) -/
+def encValues (c : Col) (v : Tx.Val) : PVal := .pair (.int c) (.pair (.bool (decide (v < 0))) (.int v.natAbs))
+
+def decValues : PVal → Option (Col × Tx.Val)
+  | .pair (.int c) (.pair (.bool neg) (.int n)) => some (c, if neg then -(n : Int) else (n : Int))
+  | _ => none
+
+/-- `DBAPI._SO_delete` / `DBAPI._SO_update` with the transaction as `self` -/
 def txCallFn (x : XT) (f : PVal) (args : List PVal) : CallRes XT :=
   match f, args with
   | .meth n, [.ref 6 j] =>
@@ -212,6 +226,17 @@ def txCallFn (x : XT) (f : PVal) (args : List PVal) : CallRes XT :=
     else .ret { x with lock := true,
                        ws := if (x.viewT (x.t.insts j).key).isSome then upd x.ws (x.t.insts j).key (some none) else x.ws }
               .none
+  | .meth n, [.ref 6 j, vals] =>
+    if n ≠ "_SO_update" then .stuck
+    else match decValues vals with
+      | none => .stuck
+      | some (c, v) =>
+        if x.obsolete then .exc x ⟨.assertionError, 0⟩
+        else .ret { x with lock := true,
+                           ws := match x.viewT (x.t.insts j).key with
+                             | some r => upd x.ws (x.t.insts j).key (some (some (upd r c v)))
+                             | none => x.ws }
+                  .none
   | _, _ => .stuck
 
 def txIface (A : AllIDs) (call : XT → PVal → String → List PVal → List (String × PVal) → CallRes XT) : Iface XT :=
@@ -240,6 +265,8 @@ def txCall1 (A : AllIDs) (x : XT) (recv : PVal) (m : String) (args : List PVal) 
 
 def assertActiveX (A : AllIDs) (x : XT) : CallRes XT := PyTx.run (iface0 A) assertActiveProg [] assertActive_nlocals x
 def soDeleteX (A : AllIDs) (x : XT) (j : Nat) : CallRes XT := PyTx.run (iface0 A) SO_deleteProg [.ref 6 j] SO_delete_nlocals x
+def soUpdateX (A : AllIDs) (x : XT) (j : Nat) (c : Col) (v : Tx.Val) : CallRes XT :=
+  PyTx.run (iface0 A) SO_updateProg [.ref 6 j, encValues c v] SO_update_nlocals x
 def beginX (A : AllIDs) (x : XT) : CallRes XT := PyTx.run (iface0 A) beginProg [] begin_nlocals x
 def rollbackX (A : AllIDs) (x : XT) : CallRes XT := PyTx.run (iface1 A) rollbackProg [] rollback_nlocals x
 def commitX (A : AllIDs) (x : XT) (close : Bool) : CallRes XT := PyTx.run (iface1 A) commitProg [.bool close] commit_nlocals x
@@ -258,6 +285,21 @@ def soDelete (s : St) (j : Nat) : St × Out :=
   if s.obsolete then ({ s with del := (s.t.insts j).key :: s.del }, .assert)
   else ({ s with del := (s.t.insts j).key :: s.del, lock := true,
                  ws := if (s.view .T (s.t.insts j).key).isSome then upd s.ws (s.t.insts j).key (some none) else s.ws }, .ok)
+
+/-! ### the part of `opSet` on the transaction side that is `Transaction._SO_update` (the rest — caching the value on the
+instance — is `SQLObject._SO_setValue`) -/
+
+def soUpdate (s : St) (j : Nat) (c : Col) (v : Tx.Val) : St × Out :=
+  if s.obsolete then ({ s with upd := (s.t.insts j).key :: s.upd }, .assert)
+  else ({ s with upd := (s.t.insts j).key :: s.upd, lock := true,
+                 ws := match s.view .T (s.t.insts j).key with
+                   | some r => upd s.ws (s.t.insts j).key (some (some (upd r c v)))
+                   | none => s.ws }, .ok)
+
+def afterSoUpdate (r : St × Out) (j : Nat) (c : Col) (v : Tx.Val) : St × Out :=
+  match r.2 with
+  | .ok => ({ r.1 with t := r.1.t.modify j fun i => { i with cached := upd i.cached c (some v), loaded := true } }, .ok)
+  | _ => r
 
 def afterSoDelete (r : St × Out) (j : Nat) : St × Out :=
   match r.2 with
